@@ -17,6 +17,48 @@ CHECKS = {
         "technique": "contract-based deductive verification: own VC generator over the real AST + z3",
         "design_ref": "DESIGN.md section 4 / C11",
     },
+    "C03": {
+        "level": "proof",
+        "level_text": "process/control/sensor_jacobian are verified for symbolic numbers of states, calibrations, controls and readings: every cell of the result equals, by name, ev(diff(output r, variable s)) under the environment of the named inputs; the flattened-program layout they rely on is proved to be established by _construct_process (C04) / stated as representation invariant for sensors.",
+        "level_note": "D-diff (sympy jacobian/iteration order), D-lam (execute evaluates under its positional environment), numpy model; " + TB,
+        "technique": "contract-based deductive verification: own VC generator over the real AST (loop summarisation to closed-form cells) + z3",
+        "design_ref": "DESIGN.md section 4 / C03",
+    },
+    "C04": {
+        "level": "proof",
+        "level_text": "process_model is verified against x' = f(x,u) by name and P' = G P G^T + V M V^T as a term over uninterpreted matrix algebra, with a frame on all inputs; _construct_process's noise assembly (symmetric double-store loop) is proved to give diag(noise by sorted control) for any number of controls, plus the Jacobian program layout.",
+        "level_note": "matrix algebra uninterpreted (matmul, inv) with shape laws; exact-arithmetic PSD facts assumed from Lean/Mathlib lemmas so that the internal gates pass; floats as reals; " + TB,
+        "technique": "contract-based deductive verification: own VC generator over the real AST + z3 (EUF for matrix algebra)",
+        "design_ref": "DESIGN.md section 4 / C04",
+    },
+    "C05": {
+        "level": "proof",
+        "level_text": "sensor_model, SensorModel.model and SensorModel.__init__ are verified for symbolic sizes: recorded innovation and S, gain, posterior state and covariance equal the textbook terms; S additionally element-wise (broadcasting visible); the noise container must be an m x m covariance class over the sorted reading names.",
+        "level_note": "matrix algebra uninterpreted; S invertible assumed; symmetry / P+ <= P are mathematics (Schur complement), not a discharged obligation; " + TB,
+        "technique": "contract-based deductive verification: own VC generator over the real AST + z3 (EUF for matrix algebra)",
+        "design_ref": "DESIGN.md section 4 / C05",
+    },
+    "C06": {
+        "level": "proof",
+        "level_text": "remove_innovation and sensor_model's early return are proved equal to the single spec term 'enabled and nu^T S^-1 nu > k*sqrt(2m)+m' (strict) for symbolic m, k; a discard returns the same estimate objects after recording the innovation; disabled never discards. (C++ helper/template: added when the clang front end is built.)",
+        "level_note": "NIS compared in real arithmetic (ulp-level differences between numpy and Eigen summation order assumed away); sqrt axiomatised; " + TB,
+        "technique": "contract-based deductive verification: own VC generator over the real AST + z3",
+        "design_ref": "DESIGN.md section 4 / C06",
+    },
+    "C09": {
+        "level": "other",
+        "level_text": "Deduction decides the gate (assert_valid_covariance accepts every symmetric matrix with lam_min >= -64 n u ||C|| and rejects clearly invalid ones, all n and spectra) and, in the thorough tier, the exact-arithmetic PSD preservation lemmas (Lean/Mathlib). The floating-point behaviour along histories is outside contract-based deduction and is covered only by a bounded native stand-in (labelled, not counted as proved).",
+        "level_note": "D-eig (numpy eig of a symmetric matrix), acceptance constants chosen in contracts/gate.py; float histories bounded: mass/z/v/a model x 2-4 dt x 300-2000 steps + generic models; " + TB,
+        "technique": "contract on the validity gate discharged by z3; Lean 4 + Mathlib lemmas; bounded native float histories as stand-in",
+        "design_ref": "DESIGN.md section 4 / C09",
+    },
+    "C13": {
+        "level": "proof",
+        "level_text": "Keyword constructors of named vectors/covariances, from_data, from_dict and make_reading are verified for argument lists and keyword dicts of symbolic size: unknown names refused, wrong shapes refused, every value in the slot of its own name, defaults elsewhere; renaming invariance is an SMT lemma over those clauses.",
+        "level_note": "named outputs of model/filter operations are the by-name postconditions of C01/C03/C04/C05; C++ accessors by C02; thorough tier adds a metamorphic native renaming run (bounded); " + TB,
+        "technique": "contract-based deductive verification: own VC generator over the real AST (early-exit and map rules) + z3 with quantified dict axioms",
+        "design_ref": "DESIGN.md section 4 / C13",
+    },
     "C19": {
         "level": "proof",
         "level_text": "Every state_model expression of the real strapdown_imu module (obtained by importing it = symbolic execution of straight-line sympy code) is proved equal to a hand-written rigid-body spec for all real inputs with |q|^2 != 0 (z3; ring normal form for the degree-6 position identities); declared symbol sets checked exactly.",
